@@ -13,16 +13,17 @@ Open Scope Z_scope.
 Inductive oemit := OCopy (id : Z) (identical : bool) | OBareAck (pmid : Z) | OOther.
 
 Inductive okind :=
-| KSend (id : Z) (dl : option Z) | KAge (ms : Z) | KTick | KAck (id : Z) | KRst (id : Z)
+| KSend (id : Z) (dl : option Z) | KSendM (id : Z) (dl : option Z) (mid : Z) | KAge (ms : Z) | KTick | KAck (id : Z) | KRst (id : Z)
 | KPiggy (id code : Z) | KSep (id code : Z) | KCancel (id : Z).
 
 Record oev := { k : okind; em : list oemit; ret : list (Z * Z * Z) }.
 
 Definition MARGIN : Z := 300.
 
-Record track := { t_id : Z; t_copies : Z; t_elapsed : Z; t_stopped : bool; t_ticked : bool;
+Record track := { t_id : Z; t_mid : Z (* message ID, by name *); t_copies : Z; t_elapsed : Z; t_stopped : bool; t_ticked : bool;
                   t_acked : bool; t_dl : option Z; t_resp : option Z; t_done : bool;
-                  t_dead : bool (* found exhausted by a tick *) }.
+                  t_dead : bool (* found exhausted by a tick *);
+                  t_freed : bool (* the exchange is over for NSTART: acknowledged or reset while pending, or cancelled *) }.
 
 Definition upd (l : list track) (id : Z) (f : track -> track) : list track :=
   map (fun t => if t_id t =? id then f t else t) l.
@@ -40,7 +41,8 @@ Definition has_ret (r : list (Z * Z * Z)) (id res code : Z) : bool :=
 
 (* classes: 1 too many copies; 2 copy not byte-identical; 3 re-send too early (or outside a tick);
    4 copy after ack/reset/cancel/return; 5 response arrived in time but the call did not succeed with it;
-   6 success without a matching response; 7 success although the attempts were exhausted.
+   6 success without a matching response; 7 success although the attempts were exhausted;
+   8 not transmitted although an NSTART slot is free (below).
    (A Reset releases the writer exactly as an acknowledgement does, and the call goes on waiting for a
    response by token; a response that the peer sends after its own Reset is returned. The Reset itself
    never becomes a response - class 6 - and that is how the reset clause is read here.) *)
@@ -56,8 +58,8 @@ Fixpoint copies_ok (ack maxrt : Z) (is_tick : bool) (ts : list track) (e : list 
           else if 1 + maxrt <? t_copies t + 1 then (1%N, ts)
           else if (1 <=? t_copies t) && (negb is_tick || (t_elapsed t <? t_copies t * ack - MARGIN)) then (3%N, ts)
           else copies_ok ack maxrt is_tick
-                 (upd ts id (fun t => {| t_id := t_id t; t_copies := t_copies t + 1; t_elapsed := t_elapsed t; t_stopped := t_stopped t;
-                                         t_ticked := false; t_acked := t_acked t; t_dl := t_dl t; t_resp := t_resp t; t_done := t_done t; t_dead := t_dead t |})) r
+                 (upd ts id (fun t => {| t_id := t_id t; t_mid := t_mid t; t_copies := t_copies t + 1; t_elapsed := t_elapsed t; t_stopped := t_stopped t;
+                                         t_ticked := false; t_acked := t_acked t; t_dl := t_dl t; t_resp := t_resp t; t_done := t_done t; t_dead := t_dead t; t_freed := t_freed t |})) r
       end
   | _ :: r => copies_ok ack maxrt is_tick ts r
   end.
@@ -71,32 +73,54 @@ Fixpoint rets_ok (ts : list track) (r : list (Z * Z * Z)) : N * list track :=
       | Some t =>
           if (res =? 0) && negb (match t_resp t with Some c => c =? code | None => false end) then (6%N, ts)
           else if (res =? 0) && t_dead t then (7%N, ts)
-          else rets_ok (upd ts id (fun t => {| t_id := t_id t; t_copies := t_copies t; t_elapsed := t_elapsed t; t_stopped := true;
-                                               t_ticked := t_ticked t; t_acked := t_acked t; t_dl := t_dl t; t_resp := t_resp t; t_done := true; t_dead := t_dead t |})) r'
+          else rets_ok (upd ts id (fun t => {| t_id := t_id t; t_mid := t_mid t; t_copies := t_copies t; t_elapsed := t_elapsed t; t_stopped := true;
+                                               t_ticked := t_ticked t; t_acked := t_acked t; t_dl := t_dl t; t_resp := t_resp t; t_done := true; t_dead := t_dead t; t_freed := t_freed t |})) r'
       end
   end.
 
 Definition set_flags (t : track) (stopped acked : bool) (resp : option Z) : track :=
-  {| t_id := t_id t; t_copies := t_copies t; t_elapsed := t_elapsed t; t_stopped := t_stopped t || stopped;
+  {| t_id := t_id t; t_mid := t_mid t; t_copies := t_copies t; t_elapsed := t_elapsed t; t_stopped := t_stopped t || stopped;
      t_ticked := t_ticked t; t_acked := t_acked t || acked; t_dl := t_dl t;
-     t_resp := match t_resp t with Some c => Some c | None => resp end; t_done := t_done t; t_dead := t_dead t |}.
+     t_resp := match t_resp t with Some c => Some c | None => resp end; t_done := t_done t; t_dead := t_dead t; t_freed := t_freed t |}.
+
+Definition set_freed (t : track) (b : bool) : track :=
+  {| t_id := t_id t; t_mid := t_mid t; t_copies := t_copies t; t_elapsed := t_elapsed t; t_stopped := t_stopped t;
+     t_ticked := t_ticked t; t_acked := t_acked t; t_dl := t_dl t; t_resp := t_resp t; t_done := t_done t; t_dead := t_dead t;
+     t_freed := t_freed t || b |}.
+
+Definition new_track (id mid : Z) (dl : option Z) : track :=
+  {| t_id := id; t_mid := mid; t_copies := 0; t_elapsed := 0; t_stopped := false; t_ticked := false;
+     t_acked := false; t_dl := dl; t_resp := None; t_done := false; t_dead := false; t_freed := false |}.
+
+(* "The matching acknowledgement": an ACK / RST is matched by the message ID it carries.  The event
+   [KAck id] stands for an ACK carrying the message ID of request id (a request issued with plain Send has
+   a fresh ID of its own, [KSendM] names the ID chosen by the application).  It acknowledges the request
+   that is outstanding under that ID: transmitted, not yet acknowledged/reset/cancelled, call not returned.
+   At most one request can be (a second one using the ID of an outstanding request is refused); if none
+   is, the message answers nothing that is still open and is accounted to request id itself. *)
+Definition outstanding (t : track) : bool := (1 <=? t_copies t) && negb (t_done t) && negb (t_stopped t).
+Definition mid_name (ts : list track) (id : Z) : Z := match get ts id with Some t => t_mid t | None => id end.
+Fixpoint find_out (ts : list track) (m : Z) : option Z :=
+  match ts with [] => None | t :: r => if (t_mid t =? m) && outstanding t then Some (t_id t) else find_out r m end.
+Definition ack_target (ts : list track) (id : Z) : Z :=
+  match find_out ts (mid_name ts id) with Some j => j | None => id end.
 
 Definition judge (ack maxrt : Z) (ts : list track) (e : oev) : N * list track :=
   (* 1. bookkeeping that precedes the observation of this event *)
   let is_tick := match k e with KTick => true | _ => false end in
   let ts0 :=
     match k e with
-    | KSend id dl => ts ++ [{| t_id := id; t_copies := 0; t_elapsed := 0; t_stopped := false; t_ticked := false;
-                               t_acked := false; t_dl := dl; t_resp := None; t_done := false; t_dead := false |}]
+    | KSend id dl => ts ++ [new_track id id dl]
+    | KSendM id dl m => ts ++ [new_track id m dl]
     | KAge ms => map (fun t => if 1 <=? t_copies t then
-                                 {| t_id := t_id t; t_copies := t_copies t; t_elapsed := t_elapsed t + ms; t_stopped := t_stopped t;
-                                    t_ticked := t_ticked t; t_acked := t_acked t; t_dl := t_dl t; t_resp := t_resp t; t_done := t_done t; t_dead := t_dead t |}
+                                 {| t_id := t_id t; t_mid := t_mid t; t_copies := t_copies t; t_elapsed := t_elapsed t + ms; t_stopped := t_stopped t;
+                                    t_ticked := t_ticked t; t_acked := t_acked t; t_dl := t_dl t; t_resp := t_resp t; t_done := t_done t; t_dead := t_dead t; t_freed := t_freed t |}
                                else t) ts
-    | KTick => map (fun t => {| t_id := t_id t; t_copies := t_copies t; t_elapsed := t_elapsed t; t_stopped := t_stopped t;
+    | KTick => map (fun t => {| t_id := t_id t; t_mid := t_mid t; t_copies := t_copies t; t_elapsed := t_elapsed t; t_stopped := t_stopped t;
                                 t_ticked := true; t_acked := t_acked t; t_dl := t_dl t; t_resp := t_resp t; t_done := t_done t;
                                 (* all 1 + MAX_RETRANSMIT copies went out before this tick and the request is still pending (nothing
                                    acknowledged, reset or cancelled it): exhausted *)
-                                t_dead := t_dead t || ((1 + maxrt <=? t_copies t) && negb (t_acked t) && negb (t_stopped t)) |}) ts
+                                t_dead := t_dead t || ((1 + maxrt <=? t_copies t) && negb (t_acked t) && negb (t_stopped t)); t_freed := t_freed t |}) ts
     | _ => ts
     end in
   (* 2. what must come back at this event *)
@@ -112,25 +136,24 @@ Definition judge (ack maxrt : Z) (ts : list track) (e : oev) : N * list track :=
         | Some t => if t_acked t && negb (t_done t) then Some (id, match t_resp t with Some c => c | None => code end) else None
         | None => None end
     | KAck id =>
-        match get ts0 id with
+        let j := ack_target ts0 id in
+        match get ts0 j with
         | Some t => if alive maxrt t && negb (t_done t) && negb (t_stopped t)
-                    then match t_resp t with Some c => Some (id, c) | None => None end else None
+                    then match t_resp t with Some c => Some (j, c) | None => None end else None
         | None => None end
     | _ => None
     end in
   (* 3. flags set by the event itself *)
   let ts1 :=
     match k e with
-    | KAck id => match get ts0 id with
-                 | Some t => upd ts0 id (fun t => set_flags t true (alive maxrt t && negb (t_stopped t)) None)
-                 | None => ts0 end
-    | KRst id => upd ts0 id (fun t => set_flags t true false None)
+    | KAck id => upd ts0 (ack_target ts0 id) (fun t => set_freed (set_flags t true (alive maxrt t && negb (t_stopped t)) None) (alive maxrt t && negb (t_stopped t)))
+    | KRst id => upd ts0 (ack_target ts0 id) (fun t => set_freed (set_flags t true false None) (alive maxrt t && negb (t_stopped t)))
     | KPiggy id code =>
-        match get ts0 id with
-        | Some t => upd ts0 id (fun t => set_flags t true (alive maxrt t && negb (t_stopped t)) (if t_done t then None else Some code))
-        | None => ts0 end
+        (* the ACK part goes by message ID, the response part by token (request id) *)
+        let ts' := upd ts0 (ack_target ts0 id) (fun t => set_freed (set_flags t true (alive maxrt t && negb (t_stopped t)) None) (alive maxrt t && negb (t_stopped t))) in
+        upd ts' id (fun t => set_flags t false false (if t_done t then None else Some code))
     | KSep id code => upd ts0 id (fun t => set_flags t false false (if t_done t then None else Some code))
-    | KCancel id => upd ts0 id (fun t => set_flags t true false None)
+    | KCancel id => upd ts0 id (fun t => set_freed (set_flags t true false None) true)
     | _ => ts0
     end in
   (* copies observed at this event are judged against the state BEFORE the event's own stop flag,
@@ -143,10 +166,23 @@ Definition judge (ack maxrt : Z) (ts : list track) (e : oev) : N * list track :=
   if negb (N.eqb c2 0) then (c2, ts3) else
   (0%N, ts3).
 
-Fixpoint judge_all (ack maxrt : Z) (ts : list track) (h : list oev) : N :=
+(* "A confirmable request issued through the client API is transmitted": its first transmission may be
+   deferred only while NSTART other exchanges are outstanding (RFC 7252 4.7).  An exchange counts as
+   outstanding here, generously, from its first transmission until an acknowledgement or a reset that arrives
+   while it is pending, the caller's cancellation or the return of the call - also after its attempts are
+   exhausted (an ACK that comes too late ends nothing: the call lingers until its context ends).  Class 8: once an event
+   has been processed, a request is still untransmitted (and neither cancelled nor returned) although fewer
+   than NSTART exchanges are outstanding. *)
+Definition occupying (t : track) : bool := (1 <=? t_copies t) && negb (t_freed t) && negb (t_done t).
+Definition unsent (t : track) : bool := (t_copies t =? 0) && negb (t_stopped t) && negb (t_done t).
+Definition idle_slot (nst : Z) (ts : list track) : bool :=
+  (Z.of_nat (length (filter occupying ts)) <? nst) && existsb unsent ts.
+
+Fixpoint judge_all (ack maxrt nst : Z) (ts : list track) (h : list oev) : N :=
   match h with
   | [] => 0%N
-  | e :: r => let '(c, ts') := judge ack maxrt ts e in if N.eqb c 0 then judge_all ack maxrt ts' r else c
+  | e :: r => let '(c, ts') := judge ack maxrt ts e in
+              if negb (N.eqb c 0) then c else if idle_slot nst ts' then 8%N else judge_all ack maxrt nst ts' r
   end.
 
-Definition c06_class (ack maxrt : Z) (h : list oev) : N := judge_all ack maxrt [] h.
+Definition c06_class (ack maxrt nst : Z) (h : list oev) : N := judge_all ack maxrt nst [] h.
